@@ -381,10 +381,47 @@ func runC11(w *World, r *Report) {
 			rg, ok := nx.Iter.(*ssa.Range)
 			return ok && strings.HasSuffix(pathOf(rg.X), ".nodes")
 		}
-		absent := lookupEdges(fn, setP, isRangeKey, false)
-		r.check(behind(g, absent), "skip-informed-peers", name+"/skip", lineOf(w, g), "send only to peers that are not in the set", "go statement reachable without crossing the absent edge of set[addr]")
+		nodesRange := func(f2 *ssa.Function) *ssa.Next {
+			var next *ssa.Next
+			instrsOf(f2, func(in ssa.Instruction) {
+				if n, ok := in.(*ssa.Next); ok {
+					if rg, ok := n.Iter.(*ssa.Range); ok && strings.HasSuffix(pathOf(rg.X), ".nodes") {
+						next = n
+					}
+				}
+			})
+			return next
+		}
+		// Where is the selection made? Either in the loop that starts the goroutines (emit = the go statement), or in a
+		// helper that returns the list of peers to send to (emit = its append), followed by a loop over that list.
+		selFn, selSet := fn, setP
+		var emit ssa.Instruction = g
+		var selCall ssa.CallInstruction
+		if nodesRange(fn) == nil {
+			if h, hp, cs := delegateFor(fn, setP); h != nil && nodesRange(h) != nil {
+				var apps []ssa.Instruction
+				instrsOf(h, func(in ssa.Instruction) {
+					if c, ok := in.(*ssa.Call); ok {
+						if bi, ok := c.Call.Value.(*ssa.Builtin); ok && bi.Name() == "append" {
+							apps = append(apps, in)
+						}
+					}
+				})
+				if len(apps) == 1 {
+					selFn, selSet, emit, selCall = h, hp, apps[0], cs
+					r.seen(shortFn(h))
+				}
+			}
+		}
+		absent := lookupEdges(selFn, selSet, isRangeKey, false)
+		r.check(behind(emit, absent), "skip-informed-peers", name+"/skip", lineOf(w, emit), "send only to peers that are not in the set", "the send (or the selection for sending) is reachable without crossing the absent edge of set[addr]")
 		// the client used belongs to the same ranged entry and the RPC matches
 		cl := closureOf(g.Call.Value)
+		if cl == nil {
+			if cal := g.Call.StaticCallee(); cal != nil && isRepoFunc(cal) && len(cal.Blocks) > 0 {
+				cl = cal // go g.sendTo(…): a method instead of a literal
+			}
+		}
 		if cl == nil && delegateSite != nil { // go send(…): the function value is a parameter, bound at the delegating call
 			if prm, ok := g.Call.Value.(*ssa.Parameter); ok {
 				for k, p2 := range fn.Params {
@@ -401,22 +438,12 @@ func runC11(w *World, r *Report) {
 		clientOK := false
 		for _, a := range g.Call.Args {
 			if strings.Contains(pathOf(a), ".client") {
-				for _, o := range origins(a) {
-					_ = o
-				}
 				clientOK = true
 			}
 		}
 		r.check(rpc == 1 && clientOK, "skip-informed-peers", name+"/rpc", lineOf(w, g), "the goroutine calls the matching Gossip RPC on the ranged peer's client", fmt.Sprintf("rpc calls=%d client-from-peer=%v", rpc, clientOK))
 		// completeness: every peer that is not in the set gets the item, and the loop always runs to its end
-		var next *ssa.Next
-		instrsOf(fn, func(in ssa.Instruction) {
-			if n, ok := in.(*ssa.Next); ok {
-				if rg, ok := n.Iter.(*ssa.Range); ok && strings.HasSuffix(pathOf(rg.X), ".nodes") {
-					next = n
-				}
-			}
-		})
+		next := nodesRange(selFn)
 		if next == nil {
 			r.bad("forward-to-every-uninformed-peer", name+"/range", w.Pos(fn.Pos()), "range over the peer table", "not found")
 		} else {
@@ -426,12 +453,12 @@ func runC11(w *World, r *Report) {
 					okv = e
 				}
 			}
-			present := lookupEdges(fn, setP, isRangeKey, true)
+			present := lookupEdges(selFn, selSet, isRangeKey, true)
 			skipped := 0
 			if okv != nil {
-				for _, te := range trueEdges(fn, okv) {
+				for _, te := range trueEdges(selFn, okv) {
 					walkFrom(nil, te.To(), edgeSet(present), func(x ssa.Instruction) bool {
-						if x == ssa.Instruction(g) {
+						if x == emit {
 							return true
 						}
 						if x == ssa.Instruction(next) {
@@ -446,18 +473,62 @@ func runC11(w *World, r *Report) {
 					})
 				}
 			}
-			r.check(okv != nil && skipped == 0, "forward-to-every-uninformed-peer", name+"/every-peer", lineOf(w, next), "each ranged peer is either in the set (skipped) or is sent the item", fmt.Sprintf("%d ways to the next peer or out of the loop without sending", skipped))
 			early := 0
 			var exh []Edge
 			if okv != nil {
-				exh = falseEdges(fn, okv)
+				exh = falseEdges(selFn, okv)
 			}
-			for _, ret := range returnsOf(fn) {
+			for _, ret := range returnsOf(selFn) {
 				if !behind(ret, exh) {
 					early++
 				}
 			}
+			if selCall != nil {
+				// second stage: the loop over the selected list starts a goroutine for every element and runs to its end
+				hdr := enclosingRangeHeader(g.Block())
+				fromSel := false
+				if hdr != nil {
+					instrsOf(fn, func(in ssa.Instruction) {
+						if ia, ok := in.(*ssa.IndexAddr); ok && hdr.Dominates(ia.Block()) {
+							for _, o := range origins(ia.X) {
+								if sameVal(o, callValue(selCall)) {
+									fromSel = true
+								}
+							}
+						}
+					})
+				}
+				if hdr == nil || !fromSel || len(hdr.Succs) != 2 {
+					skipped++
+				} else {
+					done := Edge{hdr, 1}
+					walkFrom(nil, hdr.Succs[0], edgeSet([]Edge{done}), func(x ssa.Instruction) bool {
+						if x == ssa.Instruction(g) {
+							return true
+						}
+						if x.Block() == hdr {
+							skipped++
+							return true
+						}
+						if _, ok := x.(*ssa.Return); ok {
+							skipped++
+							return true
+						}
+						return false
+					})
+					for _, ret := range returnsOf(fn) {
+						if !behind(ret, []Edge{done}) {
+							early++
+						}
+					}
+				}
+			}
+			r.check(okv != nil && skipped == 0, "forward-to-every-uninformed-peer", name+"/every-peer", lineOf(w, next), "each ranged peer is either in the set (skipped) or is sent the item", fmt.Sprintf("%d ways to the next peer or out of the loop without sending", skipped))
 			r.check(early == 0, "forward-to-every-uninformed-peer", name+"/no-early-return", w.Pos(fn.Pos()), "the function returns only after the peer table was ranged completely", fmt.Sprintf("%d returns reachable before the loop finished", early))
+		}
+		if selCall != nil && next != nil {
+			hs := li.At(next)
+			r.check(hs.Has("gossip.gossiper.mux", ""), "skip-informed-peers", name+"/selection-under-lock", lineOf(w, selCall), "the peer table is ranged under g.mux", "lockset "+hs.String())
 		}
 		held := li.At(g)
 		r.check(held.Has("gossip.gossiper.mux", ""), "skip-informed-peers", name+"/under-lock", lineOf(w, g), "peer table is read under g.mux", "lockset "+held.String())
